@@ -9,4 +9,4 @@ for seed in "$@"; do
   done
   echo "seed $seed done (failures so far: $fail)"
 done
-echo "TOTAL FAILURES: $fail"
+echo "TOTAL FAILURES: $fail"; [ $fail -eq 0 ]
